@@ -115,6 +115,44 @@ fn three(a: int, b: str, c: int) { println("three", a, b, c); }
 		Judge: spawnJudge("three 1 w 10", "three 2 v 20"),
 	},
 	{
+		// several cores loop over the SAME long-lived value: each loop has a cursor of its own
+		Name: "cores-iterating-the-same-global-string-list-and-range",
+		Source: `let S = "ab";
+let L = [1, 2];
+let R = 0..2;
+fn main() {
+    spawn w("x");
+    spawn w("y");
+}
+fn w(tag: str) {
+    let seen = "";
+    for c in S { seen += c; }
+    for n in L { seen += n.to_string(); }
+    for i in R { seen += i.to_string(); }
+    println(tag, seen);
+}
+`,
+		LockedOutput: true,
+		Judge:        spawnJudge("x ab1201", "y ab1201"),
+	},
+	{
+		Name: "one-value-handed-to-two-spawns",
+		Source: `fn main() {
+    let s = "ab";
+    let l = [1, 2];
+    spawn w("x", s, l);
+    spawn w("y", s, l);
+}
+fn w(tag: str, s: str, l: [int]) {
+    let seen = "";
+    for c in s { seen += c; }
+    for n in l { seen += n.to_string(); }
+    println(tag, seen);
+}
+`,
+		Judge: spawnJudge("x ab12", "y ab12"),
+	},
+	{
 		Name: "spawn-time-argument",
 		Source: `fn main() {
     let x = 1;
